@@ -25,7 +25,7 @@ run)
   git -C /repo worktree add -q --detach $wt HEAD || exit 9
   git -C $wt apply /verif/seeded/refactor/$id/patch.diff || { echo "$id apply failed"; git -C /repo worktree remove --force $wt; exit 1; }
   for p in ${PROPS[$r]}; do
-    res=$(cd /verif && PYVC_REPO=$wt ./check $p --tier quick 2>&1 | grep -E "VIOLATION|UNDECIDED|CHECKER|-> exit" | cut -c1-260)
+    res=$(cd /verif && PYVC_EVIDENCE=$wt/.evidence PYVC_REPO=$wt ./check $p --tier quick 2>&1 | grep -E "VIOLATION|UNDECIDED|CHECKER|-> exit" | cut -c1-260)
     ex=$(echo "$res" | grep -o "exit [0-9]" | tail -1)
     obs=$(echo "$res" | grep -E "VIOLATION|UNDECIDED|CHECKER" | sed 's/.*obligation=//;s/.*task=/task=/' | cut -c1-120 | head -3 | tr '\n' ';')
     echo "$id check=$p -> $ex [$obs]" | tee -a /verif/seeded/REFACTOR-MATRIX.txt
